@@ -386,6 +386,8 @@ class ParCorr(Corr):
     def __init__(self, ctx, name, procs=16):
         Corr.__init__(self, ctx, name)
         self.costs = []
+        self.keys = []          # per line: what distinguishes real-code calls sharing a model line (digest container)
+        self.mirror = False     # a `.ref-affine` stream re-sends inputs already counted: never adds distinct cases
         self.procs = max(1, min(procs, os.cpu_count() or 1))
         self._seen = set()
 
@@ -396,12 +398,14 @@ class ParCorr(Corr):
         self._seen.add((line, key))
         Corr.add(self, line, thunk, tag)
         self.costs.append(cost)
+        self.keys.append(key)
 
     def mirror_ref(self, keep=None):
         """a second stream: the lines of this one that are on TOY curves (and pass `keep(line, tag)`), sent to the
         `ecdsaref_<op>` handlers = the same ECDSA model over the textbook affine point layer (spec-level reference);
         the implementation's answers are the ones already recorded"""
         m = ParCorr(self.ctx, self.name + ".ref-affine", self.procs)
+        m.mirror = True
         for line, out, tag, cost in zip(self.lines, self.impl, self.tags, self.costs):
             toks = line.split(" ")
             if not toks[0].startswith("ecdsa_") or len(toks) < 2 or "," not in toks[1]:
@@ -417,6 +421,7 @@ class ParCorr(Corr):
             m.impl.append(out)
             m.tags.append(tag)
             m.costs.append(cost)
+            m.keys.append(None)
         return m
 
     def _drive(self, idxs):
@@ -454,9 +459,23 @@ class ParCorr(Corr):
         ctx.cov.setdefault("corr_wall_s", {})[self.name] = round(time.time() - t0, 1)
         ctx.cov.setdefault("corr_est_cpu_s", {})[self.name] = round(sum(self.costs), 1)
         dis = []
-        for line, a, b, tag in zip(self.lines, self.impl, model, self.tags):
+        # evaluations = comparisons made (every line of every stream, mirrors included);
+        # distinct_nontrivial = distinct CASES: canonical key = (operation line, digest container); a case is trivial - not
+        # counted - when it repeats an earlier case of this run (in any stream) or is the re-sending of a case to the second
+        # reference model (`*.ref-affine`: same input, other reference)
+        seen = ctx.__dict__.setdefault("_ecdsa_distinct_cases", set())
+        per = ctx.cov.setdefault("corr_streams", {})
+        st = per.setdefault(self.name, {"lines": 0, "distinct_new": 0, "mirror_of_counted_inputs": self.mirror})
+        keys = self.keys if len(self.keys) == len(self.lines) else [None] * len(self.lines)
+        for line, a, b, tag, key in zip(self.lines, self.impl, model, self.tags, keys):
             ctx.cov["evaluations"] += 1
-            ctx.cov["distinct_nontrivial"] += 1
+            st["lines"] += 1
+            if not self.mirror:
+                ck = (line, key)
+                if ck not in seen:
+                    seen.add(ck)
+                    ctx.cov["distinct_nontrivial"] += 1
+                    st["distinct_new"] += 1
             kind = a.split(" ")[0] + (":" + a.split(" ")[1] if a.startswith("err") else "")
             ctx.hist(self.name + ".outcome", kind)
             if tag:
@@ -491,6 +510,19 @@ def call(f):
 # bytes-like containers: the entry points accept any object exporting the buffer protocol and work on its BYTES
 # (`normalise_bytes` = memoryview(obj).cast("B")).  A container with multi-byte items has len(obj) != number of bytes, so an entry
 # point that forgets the normalisation crops / measures the digest in items.  The oracle and the model always see the bytes.
+
+COUNT_RULE = ("  COUNTING: `evaluations` = comparisons made in the correspondence stage (every line of every stream, including the "
+              "re-sending of toy-curve lines to the second reference model, streams `*.ref-affine`).  `distinct_nontrivial` = number of "
+              "distinct correspondence CASES, a case being (operation line, digest container); a case is TRIVIAL and not counted when it "
+              "repeats an earlier case of the run (in any stream) or is the `*.ref-affine` re-sending of a counted case; per-stream figures "
+              "are in coverage.corr_streams.  The search stage is counted separately (coverage.search_evaluations).  EXPLORATION is a "
+              "function of the tier and VERIF_SEED only: all budgets are counts, there is no wall-clock cut (stage times are recorded, "
+              "never consulted).")
+
+
+def note_budget(ctx):
+    ctx.cov["exploration_budget"] = {"kind": "counts derived from tier and VERIF_SEED", "wall_clock_cut": False, "skipped_specs": []}
+
 
 CONTAINERS = ("bytearray", "memoryview", "mv-H", "mv-I", "array-B", "array-H", "array-I")
 
@@ -730,11 +762,35 @@ def par_search(ctx, run_case, tagged_cases, procs=16, limit=3):
         ctx.hist("search.class", tag)
         if bad:
             nbad += 1
-            if len(ctx.violations) < limit:
-                rec = {"input": case, "class": tag}
+            if "trace" in bad:
+                # the harness itself failed on this case: a broken tie of the harness, not a failing input of the property
+                ctx.problem("harness", "search oracle crashed on a case (%s)" % tag, json_dumps(case)[:600] + "\n" + bad["trace"])
+            elif len(ctx.violations) < limit:
+                rec = {"input": case, "class": tag, "replayable": True}
                 rec.update(bad)
                 ctx.violation(rec)
     return nbad
+
+
+def json_dumps(x):
+    import json
+    return json.dumps(x, sort_keys=True, default=str)
+
+
+def replay_record(rec, run_case, is_case):
+    """shared `replay`: True iff the recorded input STILL fails.  A record whose input is not a case of this property's search
+    (foreign or damaged file) cannot be evaluated: that is reported and ends the replay with exit status 2 (infrastructure),
+    never as "still fails"; an exception of the oracle itself propagates (exit != 0 with a traceback), for the same reason."""
+    import sys
+    case = rec.get("input")
+    if not isinstance(case, dict) or not is_case(case):
+        print("replay: this record does not hold a case of the search of %s (keys: %s): cannot be re-run" %
+              (rec.get("property"), sorted(case) if isinstance(case, dict) else type(case).__name__))
+        sys.exit(2)
+    bad = run_case(case)
+    if bad:
+        print("replay: observed %s, expected %s" % (str(bad.get("observed"))[:300], str(bad.get("expected"))[:300]))
+    return bad is not None
 
 
 import contextlib
